@@ -592,3 +592,14 @@ def contracts():
         c.clause_prefixes = ["does-not-raise"]
         c.name = c.name + " (never rejects: it runs after the store)"
     return _c02_base2() + [class_set_contract()] + links
+
+
+# the update route: a rejected key of param.update (exceptional half of Parameters._update)
+_c02_base3 = contracts
+
+
+def contracts():
+    from contracts import c05 as _c05
+    u = _c05.update_contract()
+    u.prop = "C02"
+    return _c02_base3() + [u]
